@@ -128,6 +128,19 @@ int main()
 				printf("%d %d\n", int(same && guards && !g_oob), int(srt));
 			}
 		}
+		else if (cmd == "HSORT")
+		{	// real Sort / SortPrehashed with a logging iterSwapper: final arrangement | swap trace
+			std::string var; size_t n; is >> var >> n; Arr a; a.read_pairs(is, n);
+			a.query = Item{ 0, 0, -1 }; a.arm(n); g_trace = false;
+			bool pre = (var == "p"); Item* b = a.base();
+			auto swapper = [b] (Item* x, Item* y) { g_log.push_back((x - b) * 100000 + (y - b)); std::iter_swap(x, y); };
+			if (pre) HashSorter::SortPrehashed(b, n, a.hbase(), EQ(), swapper);
+			else HashSorter::Sort(b, n, HF(), EQ(), swapper);
+			if (pre) for (size_t i = 0; i < n; ++i) b[i].h = a.hbase()[i];
+			std::ostringstream os;
+			for (size_t i = 0; i < n; ++i) os << ull(b[i].h) << " " << b[i].id << " ";
+			printf("%s%s| %s\n", g_oob ? "OOB " : "", os.str().c_str(), trace_str().c_str());
+		}
 		else puts("?");
 	}
 	return 0;
